@@ -252,6 +252,18 @@ def r4(ck):
             others = [x for x in nodes if isinstance(x, tuple) and x and x[0] == "bin" and x[1].replace("WithOverflow", "") in ("Add", "Sub", "Mul", "Div", "Rem", "Shl", "Shr")]
             ck.require(good and not others, rule, "config.fuzz = parsed --fuzz, default 0", "ApplyConfig.fuzz = %s" % df.show(e, 160), cmd_push.where(s),
                        ok_detail=df.show(e, 160))
+            # parsed as the type it is used as: a narrower type turns a large limit into a parse error (and that into the default)
+            ptys = set()
+            for g_ in [h for h, _x in srcs] + [prog.fns[x[1]] for x in nodes if isinstance(x, tuple) and x and x[0] == "closure" and x[1] in prog.fns]:
+                for b2, t2 in g_.calls():
+                    rp2 = callee_of(t2).get("rpath") or callee_of(t2).get("path") or ""
+                    if (rp2.endswith("::parse") or "FromStr" in rp2) and not g_.blocks[b2]["cleanup"] and "Result<" in (t2["dty"] or ""):
+                        inner = t2["dty"].split("Result<", 1)[1].split(",")[0].strip()
+                        if inner in ("u8", "u16", "u32", "u64", "usize", "i8", "i16", "i32", "i64", "isize"):
+                            ptys.add(inner)
+            if ptys:
+                ck.require(ptys <= {"usize"}, rule, "--fuzz is parsed as usize", "the --fuzz value is parsed as %s: limits beyond that type are "
+                           "not limits any more" % sorted(ptys), cmd_push.where(s), ok_detail="parse::<usize>()")
             # the closure that parses it just parses
             for x in df.walk(e):
                 if isinstance(x, tuple) and x and x[0] == "closure" and x[1] in prog.fns:
